@@ -57,4 +57,19 @@ def ref_eval(spec, ctx=None):
             if len(r.msgs) == 1:
                 return ("recovered", next(iter(r.msgs)))
             raise Ambiguous() from None
+    if kind == "all":
+        outs = []
+        for ch in children:
+            try:
+                outs.append(("val", ref_eval(ch, myctx)))
+            except Raised as r:
+                if len(r.msgs) != 1:
+                    raise Ambiguous() from None
+                outs.append(("err", next(iter(r.msgs))))
+        errs = [m for t, m in outs if t == "err"]
+        if not errs:
+            return [v for _, v in outs]
+        if payload == 1:
+            return ["recovered_all", [[t, v] for t, v in outs]]
+        raise Raised([errs[0]])      # positional: the first failing term of the nested value, whatever finished first
     raise AssertionError(kind)
